@@ -850,3 +850,85 @@ def must_pass_before_next_iteration(fn, start_block, is_required, loop_stmt):
                 prev[s_] = (b, label)
                 dq.append(s_)
     return None
+
+
+def must_hold_at(fn, sites, gen_edge, kill_elem, entry_state=False):
+    """R-CURSOR: forward must-dataflow of one boolean fact.  The fact becomes true on an edge whose implied facts satisfy
+    gen_edge(fact), becomes false after an element accepted by kill_elem(node id), joins by AND.  Returns {site node: bool}
+    = the fact holds immediately before the site is evaluated on every path."""
+    cfg = Cfg.of(fn)
+    blocks = cfg.blocks
+    reach = cfg.reachable_blocks()
+    IN = {b: True for b in reach}       # optimistic start for the greatest fixpoint
+    IN[cfg.entry] = entry_state
+    site_set = set(sites)
+    at_site = {}
+
+    # a kill that is an operand of a site (`input_[pos_++]`) takes effect after the site has used the old value
+    inside = {}
+    for s_ in sites:
+        for j in fn.walk(s_):
+            if j != s_:
+                inside[j] = s_
+
+    def flow(b, state, record=False):
+        pending = set()
+        for e in blocks[b]['e']:
+            if not isinstance(e, int):
+                continue
+            if e in site_set:
+                if record:
+                    at_site[e] = at_site.get(e, True) and state
+                if e in pending:
+                    state = False
+                    pending.discard(e)
+            if kill_elem(e):
+                if e in inside:
+                    pending.add(inside[e])
+                else:
+                    state = False
+        if pending:
+            state = False
+        return state
+    changed = True
+    preds = {b: [] for b in reach}
+    for b in reach:
+        for s, _l, facts in cfg.out_edges(b):
+            if s in preds:
+                preds[s].append((b, facts))
+    rounds = 0
+    while changed:
+        changed = False
+        rounds += 1
+        if rounds > 200:
+            raise AnalysisBroken('cursor dataflow did not converge in %s' % fn.q)
+        OUT = {b: flow(b, IN[b]) for b in reach}
+        for b in reach:
+            if b == cfg.entry:
+                continue
+            vals = []
+            for p, facts in preds[b]:
+                v = OUT[p] or any(gen_edge(f) for f in facts)
+                vals.append(v)
+            new = all(vals) if vals else False
+            if new != IN[b]:
+                IN[b] = new
+                changed = True
+    for b in reach:
+        flow(b, IN[b], record=True)
+    res = {}
+    for s in sites:
+        if s in at_site:
+            res[s] = at_site[s]
+        else:
+            # the site is not itself a CFG element: use the nearest enclosing element
+            loc = cfg.locate(s)
+            if loc is None:
+                raise AnalysisBroken('site %d of %s not in CFG' % (s, fn.q))
+            b, idx = loc
+            st = IN[b]
+            for e in blocks[b]['e'][:idx]:
+                if isinstance(e, int) and kill_elem(e):
+                    st = False
+            res[s] = st
+    return res
